@@ -194,7 +194,9 @@ impl<const N: usize> World<N> {
     pub fn new(cfg: QCfg) -> Result<Self, String> {
         hal::reset();
         hal::with(|h| h.use_tracer_pages = cfg.trace);
-        let mut d = VirtioDev::new(DeviceType::Block, 0, 1, N as u32, vec![]);
+        // The device would accept a queue four times as large: the driver's choice of N is what
+        // both sides use.
+        let mut d = VirtioDev::new(DeviceType::Block, 0, 1, 4 * N as u32, vec![]);
         d.legacy = cfg.legacy;
         let dev: DevRc = Rc::new(RefCell::new(d));
         let mut transport = ModelTransport::new(dev.clone());
@@ -862,6 +864,7 @@ impl<const N: usize> World<N> {
                     if !elems_ok {
                         viol("C01", "element-mismatch", format!("the chain published by add_notify_wait_pop reads {:?}, not the caller's two buffers", chain.elems));
                         viol("C02", "available-chain-disturbed", format!("when the device looked at the entry published by add_notify_wait_pop (returned {:?}) its chain read {:?}, not the caller's two buffers: an entry below the available index must stay completely written until the device has used it", res, chain.elems));
+                        viol("C04", "unshared-before-completion", format!("when the device looked at the entry published by add_notify_wait_pop (returned {:?}) the caller's buffers were no longer shared under the addresses in its chain {:?}: buffers are unshared when their completion is consumed, not before", res, chain.elems));
                     }
                     for &d in &chain.descs {
                         if let Some(o) = owners[d as usize] {
